@@ -29,6 +29,10 @@ MOD = {'gzip': rs.compression.z, 'zstd': rs.compression.zstd}
 
 def _chunk(c):
     """a chunk is a hex string, or {'rep': hex, 'n': k} = the pattern repeated to k bytes (keeps big cases small)"""
+    if isinstance(c, dict) and 'rnd' in c:
+        # incompressible bytes (a fixed pseudo-random stream): the compressed stream is about as long as the input
+        import random as _r
+        return _r.Random(c['rnd']).randbytes(c['n'])
     if isinstance(c, dict):
         pat = bytes.fromhex(c['rep'])
         return (pat * (c['n'] // len(pat) + 1))[:c['n']]
@@ -72,6 +76,10 @@ def cases(tier, rng):
         for n, cuts, trunc in ((12 << 20, [], None), (24 << 20, 'half', None), (12 << 20, 'trailer', None), (40 << 20, [7], None),
                                (12 << 20, [], 'last')):
             yield {'codec': codec, 'chunks': [{'rep': '6162636465666768', 'n': n}], 'cuts': cuts, 'truncate': trunc, 'oracle_only': True}
+    for codec in ('gzip', 'zstd'):
+        # compressed streams longer than one 64 KiB read, cut so that the last pieces are full reads
+        for cuts in ('last64k', 'full64k'):
+            yield {'codec': codec, 'chunks': [{'rnd': 7, 'n': 200000}], 'cuts': cuts, 'truncate': None, 'oracle_only': True}
     for codec in ('gzip', 'zstd'):
         # more than 64 MiB in several items (size-triggered behaviour of the compressor: member / frame splitting, 32-bit counters)
         yield {'codec': codec, 'chunks': [{'rep': '6162636465666768', 'n': 17 << 20}] * 5, 'cuts': 'half', 'truncate': None, 'oracle_only': True}
@@ -131,6 +139,11 @@ def _cuts(case, z):
         return [len(z) // 2]
     if case['cuts'] == 'trailer':
         return [max(len(z) - 8, 0)]
+    if case['cuts'] == 'last64k':
+        # the piece that holds the end of the stream is exactly one 64 KiB read (a file whose size is a multiple of the read size)
+        return [max(len(z) - 65536, 0)]
+    if case['cuts'] == 'full64k':
+        return [k for k in range(len(z) % 65536 or 65536, len(z), 65536)]
     return case['cuts']
 
 
